@@ -1,4 +1,5 @@
 import Driver.C04
+import Driver.C09T
 import Driver.C11_Labels
 import Driver.C08Q
 import Driver.C18O
@@ -54,6 +55,7 @@ partial def loop (h : IO.FS.Stream) (out : IO.FS.Stream) (f : String → String)
   loop h out f
 
 def modes : List (String × (String → String)) := [
+  ("c09t", C09T.handle),
   ("c11lab", C11Labels.handle),
   ("c08q", C08Q.handle),
   ("c18o", C18O.handle),
